@@ -1,6 +1,6 @@
 (* C07 — MergeMergePatches composes.  Only the property theorems live here, each closed by a lemma
    of MergeFacts.v / ImplMergeFacts.v, with Print Assumptions beneath. *)
-From JP Require Import Bytes Json Rfc7396 JsonFacts MergeFacts.
+From JP Require Import Bytes Json Text Strings Den ImplV5 ImplMerge Rfc7396 JsonFacts MergeFacts Abs ImplMergeFacts.
 
 (* The composition law at the level of RFC 7396 values, for every document and every pair of
    compatible patches (no bound on size or nesting; "no duplicate member names" is the property's
@@ -10,6 +10,18 @@ Theorem C07_compose_law : forall d p1 p2,
   jeq (merge_patch d (mm p1 p2)) (merge_patch (merge_patch d p1) p2) = true.
 Proof. intros d p1 p2. exact (compose_law p2 d p1). Qed.
 Print Assumptions C07_compose_law.
+
+(* MergeMergePatches itself (the model of merge.go in mergeMerge mode): for an object P1 and any
+   compatible P2 the result encodes a node whose value is exactly mm P1 P2 — the combined patch of
+   the law above; a scalar or null P2 is returned verbatim *)
+Theorem C07_mergemerge_refines_mm : forall p1 p2 ms1 t2,
+  parse p1 = Some (TObj ms1) -> parse p2 = Some t2 -> tnodup (TObj ms1) = true -> tnodup t2 = true ->
+  compatible (den (TObj ms1)) (den t2) = true ->
+  (scalar_text t2 = true /\ api_merge true p1 p2 = MOut p2) \/
+  (scalar_text t2 = false /\ exists n, api_merge true p1 p2 = MOut (marshal_node n) /\ nwf n /\
+                                       aval n = mm (den (TObj ms1)) (den t2)).
+Proof. exact api_mergemerge_spec. Qed.
+Print Assumptions C07_mergemerge_refines_mm.
 
 (* deletions of both patches survive; a later value overrides an earlier one *)
 Theorem C07_combined_member : forall ms1 ms2 k,
